@@ -23,6 +23,8 @@ type GenCfg struct {
 	MaxWidth int
 	// SmallWidths biases widths to <= 16 bytes only.
 	SmallWidths bool
+	// MoreLess doubles the share of conditionals among inner nodes.
+	MoreLess bool
 	// LessBudget, when > 0, bounds the number of alternatives Possibilities
 	// may produce for the generated tree.
 	LessBudget int
@@ -184,6 +186,9 @@ func genExprRaw(t *rapid.T, cfg GenCfg, depth int, budget int) (expr.Expr, int) 
 	}
 
 	kind := rapid.IntRange(0, 9).Draw(t, "kind")
+	if cfg.MoreLess && (kind == 4 || kind == 5) {
+		kind = 6
+	}
 	switch {
 	case kind <= 1:
 		return genLeaf(t, cfg), 1
